@@ -13,7 +13,7 @@ use cosmwasm_std::{Binary, CodeInfoResponse, Order, QueryRequest, WasmQuery};
 use cw_multi_test::Executor;
 use std::collections::BTreeSet;
 
-pub fn registry_scale_pass(rep: &mut Report, n_codes: u64, n_instances: u64, seed: u64) -> Vec<Disc> {
+pub fn registry_scale_pass(rep: &mut Report, n_codes: u64, n_instances: u64, seed: u64, stop: &dyn Fn() -> bool) -> Vec<Disc> {
     let mut d = vec![];
     let mut app = new_app();
     let user = app.api().addr_make("scale-user");
@@ -39,6 +39,11 @@ pub fn registry_scale_pass(rep: &mut Report, n_codes: u64, n_instances: u64, see
     // then many instances of one code (instance numbers beyond a byte)
     order.extend(std::iter::repeat(2.min(n_codes)).take(n_instances as usize));
     for id in order {
+        // (the keeper counts the registered contracts for every instantiation: the cost grows with the square)
+        if instance_no > 300 && instance_no % 64 == 0 && stop() {
+            rep.bump("e1/scale/stopped_by_deadline");
+            break;
+        }
         if sample.contains(&id) && instances.iter().all(|(_, c, _)| *c != id) {
             let info: Result<CodeInfoResponse, _> = app.wrap().query(&QueryRequest::Wasm(WasmQuery::CodeInfo { code_id: id }));
             rep.bump("e1/scale/code_infos_compared");
